@@ -570,6 +570,10 @@ func replay(c *vh.Ctx, raw json.RawMessage) {
 	if err := json.Unmarshal(raw, &in); err != nil {
 		panic(err)
 	}
+	if pkig.UsesAlt(in.Specs) && !pkig.AltOK() {
+		c.Note("replay skipped: the x509 package under test rejects the alternative Ed25519 SPKI encoding")
+		return
+	}
 	runUniverse(c, in, true)
 }
 
